@@ -165,7 +165,84 @@ def load (hex : String) : String :=
   | .error _ => "err LoadError"
 end C
 
+/-! ### extended XYZ
+loaded: `x<title>;<cellvecs n/d|->;<energy|->;<charge|->;<atnums|->;<atcoords n/d|->;<atmasses n/d|->;<atgradient|->;<extra>`
+with `<extra>` = `x<key>=<code>:<values>` sorted by key (`i f b s` scalars, `Ti Tf Tb Ts` title arrays,
+`I<n> F<n> B<n> S<n>` per-atom columns, `n = 0` for one scalar per atom) -/
+namespace X
+open Iodata.FmtR.ExtXyz
+
+def U := Gen.LayoutsR.crdU   -- angstrom, amu
+
+def encB (b : Bool) : String := if b then "1" else "0"
+
+def encTVal : TVal → String
+  | .int n => s!"i:{n}"
+  | .num x => "f:" ++ encNum x
+  | .bool b => "b:" ++ encB b
+  | .str s => "s:" ++ encStr s
+  | .ints l => "Ti:" ++ encList "," toString l
+  | .nums l => "Tf:" ++ encList "," encNum l
+  | .bools l => "Tb:" ++ encList "," encB l
+  | .strs l => "Ts:" ++ encList "," encStr l
+
+def cellsOf (o : Obj) (i : Nat) : List Cell := (o.atoms.map fun a => a.getD i []).flatten
+
+def findCol (o : Obj) (target : String) : Option Nat := o.columns.findIdx? (fun c => c.target == target.toList)
+
+def numsOf (cs : List Cell) : List Num := cs.filterMap fun c => match c with | .num x => some x | _ => none
+
+def encScaled (unit : Rat) (cs : List Cell) : String := encList "," (fun x => V.encRat (x.val * unit)) (numsOf cs)
+
+def encCell : Cell → String
+  | .z n => toString n
+  | .num x => encNum x
+  | .str s => encStr s
+  | .int i => toString i
+  | .bool b => encB b
+
+def kindCode : Kind → String
+  | .str => "S" | .real => "F" | .int => "I" | .logical => "B" | _ => "?"
+
+def ltStr : Str → Str → Bool
+  | [], [] => false
+  | [], _ :: _ => true
+  | _ :: _, [] => false
+  | a :: as, b :: bs => if a.toNat < b.toNat then true else if b.toNat < a.toNat then false else ltStr as bs
+
+def insertKV (kv : Str × String) : List (Str × String) → List (Str × String)
+  | [] => [kv]
+  | x :: xs => if kv.1 = x.1 then kv :: xs else if ltStr kv.1 x.1 then kv :: x :: xs else x :: insertKV kv xs
+
+def extras (o : Obj) : List (Str × String) :=
+  let cols := (o.columns.zipIdx.filter fun ci => ci.1.target == "extra".toList).map fun ci =>
+    (ci.1.key, kindCode ci.1.kind ++ toString (if ci.1.vec then ci.1.size else 0) ++ ":" ++ encList "," encCell (cellsOf o ci.2))
+  let tit := o.data.extra.map fun kv => (kv.1, encTVal kv.2)
+  (cols ++ tit).foldl (fun acc kv => insertKV kv acc) []
+
+def optCol (o : Obj) (target : String) (f : List Cell → String) : String :=
+  match findCol o target with
+  | some i => f (cellsOf o i)
+  | none => "-"
+
+def negNum (x : Num) : Num := ⟨!x.neg, x.man, x.exp⟩
+
+def load (hex : String) : String :=
+  match ExtXyz.load Gen.Layouts.tables Gen.LayoutsR.strtoboolT (linesOfHex hex) with
+  | .error _ => "err LoadError"
+  | .ok o =>
+    let cell := match o.data.cell with
+      | some l => encList "," (fun x => V.encRat (x.val * U.angstrom)) l
+      | none => "-"
+    let on (x : Option Num) := match x with | some v => encNum v | none => "-"
+    ";".intercalate ["ok " ++ encStr o.title, cell, on o.data.energy, on o.data.charge,
+      optCol o "atnums" (encList "," encCell), optCol o "atcoords" (encScaled U.angstrom), optCol o "atmasses" (encScaled U.amu),
+      optCol o "atgradient" (fun cs => encList "," (fun x => encNum (negNum x)) (numsOf cs)),
+      encList "," (fun kv => encStr kv.1 ++ "=" ++ kv.2) (extras o)]
+end X
+
 def handle : List String → Option String
+  | ["fmtr", "load", "extxyz", payload] => some (X.load payload)
   | ["fmtr", "spec", "crd", payload] => some (C.spec payload)
   | ["fmtr", "load", "crd", payload] => some (C.load payload)
   | ["fmtr", "spec", "vasp", payload] => some (V.spec payload)
